@@ -258,8 +258,9 @@ def run_property(ctx, prop, replay=None):
         mons = monitors(prop, c)
         ctx.fail(f"{prop}:traversal-correspondence", "the traversal (graph.py / node.py / runner.py) and the model disagree on a trace",
                  d, False)
-    if prop == "C01":
-        # the hypotheses of C01_available_at_start_single_worker (simple_b) on the exported single-worker graphs: which graphs the
+    if prop in ("C01", "C02"):
+        thm = {"C01": "C01_available_at_start_single_worker", "C02": "C02_exit_means_every_reachable_test_was_dealt_with"}[prop]
+        # the hypotheses of C01_available_at_start_single_worker / C02_exit_means_every_reachable_test_was_dealt_with (simple_b) on the exported single-worker graphs: which graphs the
         # theorem covers; a single-worker graph without removable states / permanent objects and with own+shared in scope must meet them
         from harness.common import coq_failing
         single = [k for k, c in enumerate(cases) if len(c["spec"]["workers"]) == 1]
@@ -280,8 +281,8 @@ def run_property(ctx, prop, replay=None):
             for k in unexpected[:1]:
                 d = travgen.replay_data(cases[k])
                 d["obligation"] = "hypotheses:simple_b-holds-of-plain-single-worker-graphs"
-                ctx.fail("C01:theorem-hypotheses-not-met", "a plain single-worker graph does not meet the hypotheses (simple_b) of C01_available_at_start_single_worker", d, False)
-            ctx.coverage["graphs_covered_by_C01_available_at_start_single_worker"] = len(single) - len(outside)
+                ctx.fail(f"{prop}:theorem-hypotheses-not-met", f"a plain single-worker graph does not meet the hypotheses (simple_b) of {thm}", d, False)
+            ctx.coverage[f"graphs_covered_by_{thm}"] = len(single) - len(outside)
             ctx.coverage["single_worker_graphs"] = len(single)
     if prop == "C04":
         # the hypotheses of C04_mutual_exclusion on every exported graph: one owner per node, bridged classes agreeing on flat
